@@ -261,3 +261,98 @@ def rule_between(rep, prog, rule, fid, start_names, a_names, b_names, s_what, a_
 def rule_only_after(rep, prog, rule, fid, a_names, b_names, a_what, b_what, key=None):
     """alias of rule_precede with Ok-continuation: B only after A succeeded"""
     return rule_precede(rep, prog, rule, fid, a_names, b_names, a_what, b_what, a_ok=True, key=key)
+
+
+# --------------------------------------------------------------------------------------------
+# guard regions
+
+def local_kill_events(body, g):
+    """events that end the life of the value in bare local g: Drop terminators of g (or a
+    projection of it) and moves of the bare local (statement operands / call arguments)."""
+    from .model import place_proj
+    ev = []
+    for b in body.normal_blocks():
+        for i, st in enumerate(body.stmts(b)):
+            for o in st.get("o", []):
+                if "m" in o and place_local(o["m"]) == g and is_bare(o["m"]):
+                    ev.append(Ev(b, "stmt", i, what="move of _%d" % g))
+        t = body.term(b)
+        if t["k"] == "drop" and place_local(t["place"]) == g and is_bare(t["place"]):
+            ev.append(Ev(b, "term", what="drop of _%d" % g))
+        if t["k"] == "call":
+            for o in t["args"]:
+                if "m" in o and place_local(o["m"]) == g and is_bare(o["m"]):
+                    ev.append(Ev(b, "term", what="move of _%d into a call" % g))
+    return ev
+
+
+def local_def_events(body, g):
+    ev = []
+    for d in body.defs().get(g, []):
+        if d[0] == "stmt":
+            ev.append(Ev(d[1], "stmt", d[2], what="definition of _%d" % g))
+        else:
+            ev.append(Ev(d[1], "term", what="definition of _%d (call result)" % g))
+    return ev
+
+
+def guard_live_at(body, g, x_events):
+    """the guard held in local g is alive at each X event: (1) X is dominated by g's
+    definition, (2) no kill of g lies on a path from the definition to X.
+    returns (ok, reason)"""
+    defs = local_def_events(body, g)
+    if not defs:
+        return False, "guard local _%d is never defined" % g
+    bad = must_precede(body, defs, x_events)
+    if bad:
+        return False, "the protected operation is reachable without the guard having been acquired"
+    kills = local_kill_events(body, g)
+    # blocks reachable after a kill (without passing a fresh definition)
+    starts = []
+    for k in kills:
+        if k.kind == "term":
+            starts.extend(body.succ(k.b))
+        else:
+            starts.append(("mid", k.b, k.i))
+    for k in kills:
+        if k.kind == "stmt":
+            # kill inside a block: everything after statement i in the same block, then successors
+            for x in x_events:
+                if x.b == k.b and x.pos(body) > k.i:
+                    return False, "the guard is moved/dropped (%s) before the protected operation in the same block" % k.what
+    succ_starts = [s for s in starts if not isinstance(s, tuple)]
+    for s in starts:
+        if isinstance(s, tuple):
+            succ_starts.extend(body.succ(s[1]))
+    if succ_starts:
+        reached = reach_positions(body, defs, starts=tuple(succ_starts))
+        for x in x_events:
+            if x.b in reached and reached[x.b] >= x.pos(body):
+                return False, "the protected operation is reachable after the guard was released (%s)" % kills[0].what
+    return True, "guard _%d: defined on every path to the operation and not released before it (%d release site(s) examined)" % (g, len(kills))
+
+
+def locals_of_type(body, pred):
+    return [l for l, tid in enumerate(body.locals) if pred(body.types[tid])]
+
+
+def return_defs(body):
+    """non-error definitions of the return place: list of ('ok', block, operand-local-or-None) for
+    `_0 = Ok(x)`, ('call', block, term) for `_0 = f(..)`, ('other', block, stmt).  Definitions
+    that are error exits (`from_residual`, `Err(..)`) are skipped."""
+    out = []
+    for d in body.defs().get(0, []):
+        if d[0] == "call":
+            t = d[2]
+            if t.get("f", "").endswith("FromResidual::from_residual"):
+                continue
+            out.append(("call", d[1], t))
+        else:
+            st = d[3]
+            if st.get("r") == "agg" and st.get("adt") == "core::result::Result":
+                if st.get("variant") == "Err":
+                    continue
+                out.append(("ok", d[1], op_local(st["o"][0]) if st["o"] else None))
+            else:
+                out.append(("other", d[1], st))
+    return out
